@@ -83,14 +83,23 @@ func runC15(c *Ctx) {
 	if pf != nil {
 		npfl, pfl := c.constVal("estargz", "NoPrefetchLandmark"), c.constVal("estargz", "PrefetchLandmark")
 		var npCall, pCall ssa.CallInstruction
-		for _, g := range callsIn(pf, func(id string, ci ssa.CallInstruction) bool { return ci.Common().IsInvoke() && ci.Common().Method.Name() == "GetChild" }) {
-			if s, ok := constString(g.Common().Args[1]); ok {
-				if s == npfl {
-					npCall = g
+		host := pf // the function that looks the landmarks up: prefetch itself, or a helper it owns
+		for _, hf := range c.withHelpers(pf) {
+			for _, g := range callsIn(hf, func(id string, ci ssa.CallInstruction) bool { return ci.Common().IsInvoke() && ci.Common().Method.Name() == "GetChild" }) {
+				if s, ok := constString(g.Common().Args[1]); ok {
+					if s == npfl {
+						npCall, host = g, hf
+					}
+					if s == pfl {
+						pCall = g
+					}
 				}
-				if s == pfl {
-					pCall = g
-				}
+			}
+		}
+		var hostCall *ssa.Call // the call of the helper in prefetch
+		if host != pf {
+			for _, ci := range callsIn(pf, func(_ string, ci ssa.CallInstruction) bool { return staticFn(ci) == host }) {
+				hostCall, _ = ci.(*ssa.Call)
 			}
 		}
 		caches := callsIn(pf, func(id string, ci ssa.CallInstruction) bool {
@@ -99,13 +108,60 @@ func runC15(c *Ctx) {
 		if npCall == nil || pCall == nil || len(caches) < 2 {
 			c.bad(c.fnKey(pf)+":shape", pf.Pos(), fmt.Sprintf("landmark lookups or fetch calls not found (no-prefetch:%v prefetch:%v cache calls:%d)", npCall != nil, pCall != nil, len(caches)))
 		} else {
-			se := successEdges(pf, npCall)
+			se := successEdges(host, npCall)
 			bad := false
-			for _, e := range se {
-				first := pf.Blocks[e.from].Succs[e.succ].Instrs[0]
-				for _, cc := range caches {
-					if g, _ := reach(pf, first, isInstr(cc), nil); g != nil || first == ssa.Instruction(cc) {
+			if host == pf {
+				for _, e := range se {
+					first := pf.Blocks[e.from].Succs[e.succ].Instrs[0]
+					for _, cc := range caches {
+						if g, _ := reach(pf, first, isInstr(cc), nil); g != nil || first == ssa.Instruction(cc) {
+							bad = true
+						}
+					}
+				}
+			} else {
+				// the helper reports the landmark through a bool result: every return reachable from the success edge of
+				// the lookup has that result true, and prefetch reaches a fetch only on the false edge of that result
+				k := -1
+				res := host.Signature.Results()
+				for i := 0; i < res.Len(); i++ {
+					if res.At(i).Type().String() == "bool" {
+						k = i
+					}
+				}
+				if k < 0 || hostCall == nil || pCall.Parent() != host {
+					bad = true
+				} else {
+					for _, e := range se {
+						first := host.Blocks[e.from].Succs[e.succ].Instrs[0]
+						for _, r := range realReturns(host) {
+							if first != ssa.Instruction(r) {
+								if g, _ := reach(host, first, isInstr(r), nil); g == nil {
+									continue
+								}
+							}
+							for _, rv := range retVals(r, k) {
+								if !isConstBool(rv, true) {
+									bad = true
+								}
+							}
+						}
+					}
+					var flag ssa.Value
+					for _, r := range *hostCall.Referrers() {
+						if ex, ok := r.(*ssa.Extract); ok && ex.Index == k {
+							flag = ex
+						}
+					}
+					if flag == nil {
 						bad = true
+					} else {
+						fe := boolEdges(pf, flag, false)
+						for _, cc := range caches {
+							if o, _ := mustPass(pf, cc, newCuts().addEdges(fe)); !o || len(fe) == 0 {
+								bad = true
+							}
+						}
 					}
 				}
 			}
@@ -134,7 +190,7 @@ func runC15(c *Ctx) {
 				} else if len(args) >= 3 {
 					sizeArg = args[2]
 				}
-				srcs := valueSources(sizeArg, pf, 0)
+				srcs := valueSourcesIP(sizeArg, pf, 0)
 				hasOffset, hasCap, hasParam := false, false, false
 				for _, v := range srcs {
 					v = stripConv(v)
@@ -149,20 +205,25 @@ func runC15(c *Ctx) {
 					if call, ok := v.(*ssa.Call); ok && strings.HasSuffix(calleeID(call), ".Size") {
 						hasCap = true
 					}
-					if _, ok := v.(*ssa.Parameter); ok {
+					if _, ok := stripConv(resolveParam(v)).(*ssa.Parameter); ok {
+						hasParam = true
+					}
+					if cellHasParamStore(resolveParam(v)) {
 						hasParam = true
 					}
 				}
 				c.verdict(c.fnKey(pf)+":download-range", blobCache.Pos(), hasOffset && hasCap && hasParam, "range is the landmark offset, or the configured size capped by the blob size", fmt.Sprintf("prefetch range sources changed (landmark offset:%v, blob-size cap:%v, configured size:%v)", hasOffset, hasCap, hasParam))
 				// cap: prefetchSize > blob.Size() ⇒ blob.Size()
 				capOK := false
-				eachInstr(pf, func(i ssa.Instruction) {
-					if b, ok := i.(*ssa.BinOp); ok && b.Op == token.GTR && (isParamish(b.X) || cellHasParamStore(b.X)) {
-						if call, ok := stripConv(b.Y).(*ssa.Call); ok && strings.HasSuffix(calleeID(call), ".Size") {
-							capOK = true
+				for _, hf := range c.withHelpers(pf) {
+					eachInstr(hf, func(i ssa.Instruction) {
+						if b, ok := i.(*ssa.BinOp); ok && b.Op == token.GTR && (isParamish(b.X) || cellHasParamStore(b.X)) {
+							if call, ok := stripConv(b.Y).(*ssa.Call); ok && strings.HasSuffix(calleeID(call), ".Size") {
+								capOK = true
+							}
 						}
-					}
-				})
+					})
+				}
 				c.verdict(c.fnKey(pf)+":size-cap", pf.Pos(), capOK, "configured size compared with the blob size", "configured prefetch size is not capped by the blob size")
 				// the filter literal compares with the same variable
 				filterOK := false
@@ -723,14 +784,20 @@ func runC20(c *Ctx) {
 					return
 				}
 				sp2, ok := stripConv(b.Y).(*ssa.Call)
-				if !ok || calleeID(sp2) != "fmt.Sprintf" {
+				if !ok {
 					return
 				}
-				va := varargs(sp2.Call.Args[1])
 				good := false
-				if len(va) == 1 {
-					idx := stripConv(va[0])
-					good = isLoopIndex(idx)
+				switch calleeID(sp2) {
+				case "fmt.Sprintf", "fmt.Sprint":
+					va := varargs(sp2.Call.Args[len(sp2.Call.Args)-1])
+					if len(va) == 1 {
+						good = isLoopIndex(stripConv(va[0]))
+					}
+				case "strconv.Itoa", "strconv.FormatInt", "strconv.FormatUint":
+					good = isLoopIndex(stripConv(sp2.Call.Args[0]))
+				default:
+					return
 				}
 				c.verdict(c.fnKey(g)+":urls-index", b.Pos(), good, "urls.<i> uses the loop's own index", "the index in urls.<i> is not the loop index of the layer it describes")
 			})
